@@ -72,7 +72,7 @@ def run_node(ctx, keys_for_pid, extra=None):
         sorted(set(v["key"] for v in res.get("violations") or []))))
     if other:
         log("[node] note: violations belonging to other properties of the Node family were observed: %s" % sorted(set(other)))
-    if res["blocks_accepted"] < 100 or res["probes"] < 500 or res["scripts_with_finality"] == 0 or len(res["probe_kinds"]) < 20:
+    if not ctx.violations and (res["blocks_accepted"] < 100 or res["probes"] < 500 or res["scripts_with_finality"] == 0 or len(res["probe_kinds"]) < 20):
         raise Inconclusive("scripts did not exercise enough (blocks/probes/finality): vacuous")
     sample = json.loads(open(sf).readline())
     cov = dict(traces_validated_against_impl=res["scripts"], samples=[dict(script=sample["script"][:3], probes=[p["mut"] for p in sample["probes"]][:10])],
